@@ -3,4 +3,5 @@ import BfeVerif.C30.Huffman
 import BfeVerif.C31.HuffRef
 import BfeVerif.C31.Split
 import BfeVerif.C31.Conform
+import BfeVerif.C31.Emit
 /-! Lemmas for C31 are in HuffRef (Huffman reference), Split (split invariance), Conform (block-level agreement). -/
